@@ -30,8 +30,16 @@ def gen_block(rng):
         # a second thread in the process (a shutdown ends the process, not one thread)
         regs.insert(0, "thread")
     ops += regs
+    nregs = sum(1 for r in regs if r.split()[0] in ("flag", "usize", "shutdown"))
+    unregs = rng.random() < 0.35
+    if unregs and rng.random() < 0.5:
+        # more actions first, so that a removal in the middle has something to disturb
+        for _ in range(rng.randint(1, 3)):
+            ops.append(rng.choice(["flag b%d" % rng.randint(0, nb - 1), "usize u9 %d" % rng.randint(1, 9)])); nregs += 1
     for _ in range(rng.randint(1, 7)):
         r = rng.random()
+        if unregs and r < 0.3:
+            ops.append("unreg %d" % rng.randint(0, nregs)); continue
         if r < 0.55:
             ops.append("raise")
         elif r < 0.85:
@@ -54,7 +62,7 @@ def run_blocks(blocks):
 def monitor(block, impl):
     """the property on the implementation's own answers (independent of the model)"""
     probs = []
-    flags, regs = {}, []          # flag -> value ; registered actions in order
+    flags, regs, nreg = {}, [], 0     # flag -> value ; registered actions in order (with their registration number)
     reraise = False
     out = [l for l in impl]
     pos = 0
@@ -65,11 +73,19 @@ def monitor(block, impl):
             break
         res = out[pos] if pos < len(out) else "<missing>"
         if w[0] == "flag":
-            regs.append(("set", w[1], 1)); flags.setdefault(w[1], 0)
+            regs.append(("set", w[1], 1, nreg)); nreg += 1; flags.setdefault(w[1], 0)
         elif w[0] == "usize":
-            regs.append(("set", w[1], int(w[2]))); flags.setdefault(w[1], 0)
+            regs.append(("set", w[1], int(w[2]), nreg)); nreg += 1; flags.setdefault(w[1], 0)
         elif w[0] == "shutdown":
-            regs.append(("shut", w[2], int(w[1]))); flags.setdefault(w[2], 0)
+            regs.append(("shut", w[2], int(w[1]), nreg)); nreg += 1; flags.setdefault(w[2], 0)
+        elif w[0] == "unreg":
+            # the k-th registration goes away; the others keep their order
+            k = int(w[1])
+            live = [r for r in regs if r[3] == k]
+            want = "ok" if live else ("gone" if k < nreg else "bad-op")
+            if res != want:
+                probs.append("ops `%s`: `%s` answered `%s`, expected `%s`" % ("; ".join(block), op, res, want))
+            regs = [r for r in regs if r[3] != k]
         elif w[0] == "set":
             flags[w[1]] = (1 if int(w[2]) else 0) if w[1][0] == "b" else int(w[2])
         elif w[0] == "reraiser":
@@ -80,7 +96,7 @@ def monitor(block, impl):
             cur = dict(flags)
             want_exit = None
             for _round in range(2 if reraise else 1):
-                for kind, f, v in regs:
+                for kind, f, v, _n in regs:
                     if kind == "set":
                         cur[f] = v
                     elif cur.get(f, 0) != 0:
